@@ -52,7 +52,7 @@ const STAGE_BOUND: usize = 5;
 /// depth bound used by the cost model (mirrors the subject's private MAX_DEPTH; only influences skipping)
 const MODEL_MAX_DEPTH: usize = 10;
 const STEP_CAP_QUICK: u64 = 600;
-const STEP_CAP_THOROUGH: u64 = 1_500;
+const STEP_CAP_THOROUGH: u64 = 1_000;
 const HARD_TIMEOUT_S: u64 = 20;
 
 /// the three plain names first (the plain naming of a shape is x, X, Y in slot order; "x" is also a
@@ -92,7 +92,7 @@ const CORE: [&str; 24] = [
 /// sub-core used for the ordered pairs of the quick tier
 const QUICK_PAIR_CORE: [usize; 7] = [0, 5, 6, 7, 11, 12, 14];
 /// thorough tier: ordered pairs inside this sub-core get the fact sets of size <= 3, all other ordered pairs those of size <= 2 (+ curated)
-const THOROUGH_DENSE_PAIR_CORE: [usize; 10] = [0, 1, 5, 6, 7, 9, 11, 12, 13, 14];
+const THOROUGH_DENSE_PAIR_CORE: [usize; 8] = [0, 1, 5, 6, 7, 11, 12, 14];
 
 const FACT_UNIVERSE: [&str; 10] = ["a p b", "b p c", "c p d", "c p a", "b p a", "a p a", "a q b", "b q c", "d q a", "c q c"];
 /// curated larger fact sets (indices into FACT_UNIVERSE): chains, cycle, loop, mixed p/q
@@ -810,8 +810,8 @@ fn chain_facts(n: usize) -> Vec<Fact> {
     (0..n).map(|i| [format!("c{}", i), "p".to_string(), format!("c{}", i + 1)]).collect()
 }
 
-/// The enumeration plan of a tier: (program, list of fact sets) in a fixed global order.
-fn plan(thorough: bool) -> Vec<(Vec<usize>, Vec<Vec<usize>>)> {
+/// The enumeration plan of a tier: (program, list of fact sets, all 6-name namings?) in a fixed global order.
+fn plan(thorough: bool) -> Vec<(Vec<usize>, Vec<Vec<usize>>, bool)> {
     let curated3: Vec<Vec<usize>> = CURATED.iter().filter(|c| c.len() == 3).map(|c| c.to_vec()).collect();
     let curated4: Vec<Vec<usize>> = CURATED.iter().filter(|c| c.len() == 4).map(|c| c.to_vec()).collect();
     let mut l2c = fact_sets(2);
@@ -822,14 +822,14 @@ fn plan(thorough: bool) -> Vec<(Vec<usize>, Vec<Vec<usize>>)> {
     let l4 = fact_sets(4);
     let mut v = Vec::new();
     for i in 0..CORE.len() {
-        v.push((vec![i], if thorough { l4.clone() } else { l2c.clone() }));
+        v.push((vec![i], if thorough { l4.clone() } else { l2c.clone() }, thorough));
     }
     if thorough {
         for i in 0..CORE.len() {
             for j in 0..CORE.len() {
                 if i != j {
                     let dense = THOROUGH_DENSE_PAIR_CORE.contains(&i) && THOROUGH_DENSE_PAIR_CORE.contains(&j);
-                    v.push((vec![i, j], if dense { l3c.clone() } else { l2c.clone() }));
+                    v.push((vec![i, j], if dense { l3c.clone() } else { l2c.clone() }, dense));
                 }
             }
         }
@@ -837,7 +837,7 @@ fn plan(thorough: bool) -> Vec<(Vec<usize>, Vec<Vec<usize>>)> {
         for &i in &QUICK_PAIR_CORE {
             for &j in &QUICK_PAIR_CORE {
                 if i != j {
-                    v.push((vec![i, j], l2c.clone()));
+                    v.push((vec![i, j], l2c.clone(), false));
                 }
             }
         }
@@ -886,7 +886,7 @@ fn run(ctx: &Ctx) -> ShardOut {
     }
 
     // family "core": programs x fact sets
-    for (pi, (prog, fsets)) in plan.iter().enumerate() {
+    for (pi, (prog, fsets, full_namings)) in plan.iter().enumerate() {
         let rules: Vec<Rule> = prog.iter().map(|i| core[*i].clone()).collect();
         for (fi, fs) in fsets.iter().enumerate() {
             idx += 1;
@@ -901,7 +901,7 @@ fn run(ctx: &Ctx) -> ShardOut {
             if let Some(p) = &ctx.progress {
                 p.mark(&case_json(&rules, &facts, &dl::atom("?x ?X ?Y")).to_string());
             }
-            if !run_batch(&subject, &mut out, &rules, &facts, &shp, thorough, step_cap, "core", idx) {
+            if !run_batch(&subject, &mut out, &rules, &facts, &shp, *full_namings, step_cap, "core", idx) {
                 return out;
             }
         }
